@@ -34,7 +34,7 @@ LAYOUT = B.get("layout", [["aa1", "aa2"], [], ["ac1"]])      # LAYOUT[i] = bucke
 J = B.get("J", 40)
 MAXSLICES = 14
 TRANSIENT = "ab5"
-MAXPERM = 6 if max(len(x) for x in LAYOUT) >= 3 else 2      # distinct listing orders worth trying for this layout
+MAXPERM = 6 if max(len(x or []) for x in LAYOUT) >= 3 else 2      # distinct listing orders worth trying for this layout
 
 NOTES = [
     "ShareCrawler.prefixes cut from 1024 to 3 entries (aa, ab, ac): during construction `range(2**10)` in storage.crawler yields 3 values and "
@@ -73,6 +73,9 @@ class _World(object):
         self.incarnation = 0
         self.listings = 0
         self.perm = None       # None: listings come reversed; else index of the permutation applied to every directory listing
+        self.torn_writes = False   # kills may also hit between open(..., "wb") and close of a file written in place
+        self.new_bucket_after_cycle0 = False   # bucket TRANSIENT is created right after cycle 0 has finished
+        self.finished_count = 0
         self.restart_after = 0  # clean stop + restart after this many completed slices (0 = never)
         self.slices_done = 0
         self.transient = None  # (k, appears): bucket TRANSIENT exists from / until the k-th prefix listing
@@ -97,9 +100,16 @@ class _Clock(object):
 
 
 class _WFile(object):
+    """a file opened for writing.  Opening truncates: from that moment until the close the file on disk is empty / partial
+    (modelled as empty).  A file named *.tmp is scratch space that is later renamed over the real file (atomic); anything else is
+    written IN PLACE, so the moment between open and close is one more point where the process can be killed (W.torn_writes)."""
+
     def __init__(self, path):
         self.path = path
         self.buf = []
+        W.files[path] = b""
+        if W.torn_writes and not path.endswith(".tmp"):
+            W.event()
 
     def write(self, data):
         self.buf.append(data)
@@ -185,8 +195,12 @@ class _FakeOS(object):
         if d.startswith("shares/"):
             rest = d[len("shares/"):]
             if rest in PREFIXES:
+                if LAYOUT[PREFIXES.index(rest)] is None:
+                    raise FileNotFoundError(d)                          # this prefix directory does not exist
                 out = _permuted(sorted(LAYOUT[PREFIXES.index(rest)]), W.perm)   # unsorted on purpose
                 W.listings += 1
+                if W.new_bucket_after_cycle0 and W.finished_count >= 1 and rest == TRANSIENT[:2]:
+                    out.append(TRANSIENT)
                 if W.transient is not None and rest == TRANSIENT[:2]:
                     (k, appears) = W.transient
                     if (W.listings >= k) == appears:
@@ -261,6 +275,7 @@ class RecCrawler(ShareCrawler):
 
     def finished_cycle(self, cycle):
         W.log.append((W.incarnation, "finished", cycle))
+        W.finished_count += 1
 
     def yielding(self, sleep_time):
         W.log.append((W.incarnation, "yield", sleep_time, self.state["current-cycle"]))
@@ -299,18 +314,24 @@ def _new_crawler(cls, *extra):
     return c
 
 
+CORRUPT = "corrupt"
+
+
 def _disk_state():
     p = "storage/crawler.state.json"
     if p not in W.files:
         return None
-    return _UntracedJSON.loads(W.files[p])
+    try:
+        return _UntracedJSON.loads(W.files[p])
+    except ValueError:
+        return CORRUPT
 
 
 def _all_buckets():
     out = []
     for p in sorted(PREFIXES):              # the documented crawl order: prefixes ascending, buckets ascending
         i = PREFIXES.index(p)
-        for b in sorted(LAYOUT[i]):
+        for b in sorted(LAYOUT[i] or []):
             out.append((p, b))
     return out
 
@@ -343,6 +364,8 @@ def _drive(cls, extra, want_cycles):
         except _Crash:
             W.timers[:] = []
             st = _disk_state()
+            if st == CORRUPT:
+                return "a kill inside a state write left no readable copy of the crawler state (position and cycle counter lost)", lcf_seen
             if st is not None and (not lcf_seen or lcf_seen[-1] != st["last-cycle-finished"]):
                 lcf_seen.append(st["last-cycle-finished"])
             if st is not None and st["last-cycle-finished"] is not None and st["last-cycle-finished"] >= want_cycles - 1:
@@ -350,8 +373,8 @@ def _drive(cls, extra, want_cycles):
             c = _boot(cls, extra)
             continue
         st = _disk_state()
-        if st is None:
-            return "no state on disk after a slice", lcf_seen
+        if st is None or st == CORRUPT:
+            return "no readable state on disk after a slice", lcf_seen
         lcf = st["last-cycle-finished"]
         if not lcf_seen or lcf_seen[-1] != lcf:
             lcf_seen.append(lcf)
@@ -502,6 +525,34 @@ def h_crawl_clean_restart(j1: int, j2: int, restart_after: int) -> bool:
     return True
 
 
+def h_crawl_new_bucket(j1: int, j2: int) -> bool:
+    """
+    pre: 1 <= j1 < j2 <= J + 1
+    pre: B.get("two_jumps", False) or j2 == J + 1
+    post: _ == True
+    """
+    W.reset(j1, j2, 0)
+    W.new_bucket_after_cycle0 = True
+    err, lcf_seen = _drive(RecCrawler, (), 2)
+    if err:
+        return err
+    err = _check_lcf(lcf_seen, 2)
+    if err:
+        return err
+    buckets = _all_buckets()
+    c0 = [(e[3], e[4]) for e in W.log if e[1] == "bucket" and e[2] == 0]
+    c1 = [(e[3], e[4]) for e in W.log if e[1] == "bucket" and e[2] == 1]
+    if c0 != buckets:
+        return "cycle 0 did not process exactly the buckets that existed, in order"
+    # the bucket was created after cycle 0 finished and exists throughout cycle 1 (same process, no restart)
+    want = sorted(buckets + [(TRANSIENT[:2], TRANSIENT)])
+    if c1 != want:
+        if (TRANSIENT[:2], TRANSIENT) not in c1:
+            return "a bucket created between two cycles was not crawled in the next cycle of the same process"
+        return "cycle 1 did not process every bucket exactly once, in order"
+    return True
+
+
 def h_crawl_crash(j1: int, crash_at: int) -> bool:
     """
     pre: 1 <= j1 <= J
@@ -509,6 +560,7 @@ def h_crawl_crash(j1: int, crash_at: int) -> bool:
     post: _ == True
     """
     W.reset(j1, J + 1000, crash_at)
+    W.torn_writes = True
     err, lcf_seen = _drive(RecCrawler, (), 2)
     if err:
         return err
@@ -573,6 +625,7 @@ class RecLease(expirer.LeaseCheckingCrawler):
 
 EXCLUDED = []       # witness classes listed in known_findings.json are assumed away when the worker puts them here
 RESTART_CLASS = "restart-mid-cycle:lease-age-histogram-reloaded-as-list"
+HISTORY_CLASS = "kill-inside-history-write:history-file-unreadable"
 
 
 def _exc_class(e):
@@ -580,6 +633,9 @@ def _exc_class(e):
     names = [f.name for f in traceback.extract_tb(e.__traceback__)]
     if isinstance(e, (TypeError, ValueError)) and ("add_lease_age_to_histogram" in names or "convert_lease_age_histogram" in names):
         return RESTART_CLASS
+    files = [f.filename for f in traceback.extract_tb(e.__traceback__)]
+    if isinstance(e, ValueError) and any(fn.endswith("expirer.py") and nm == "load" for fn, nm in zip(files, names)):
+        return HISTORY_CLASS
     return "exception:" + type(e).__name__
 
 
@@ -644,6 +700,7 @@ def h_lease_cycle_restart(j1: int, crash_at: int) -> bool:
     post: _ == True
     """
     W.reset(j1, J + 1000, crash_at)
+    W.torn_writes = B.get("torn_writes", True)
     try:
         err, lcf_seen = _drive(RecLease, _LEASE_ARGS, 2)
     except Exception as e:
